@@ -155,8 +155,9 @@ def escapeDq : Str → Str
   | '"' :: r => '\\' :: '"' :: escapeDq r
   | c :: r => c :: escapeDq r
 
-/-- `^#include`: a word that starts like an include directive is written in quotes -/
-def startsInclude (s : Str) : Bool := "#include".toList.isPrefixOf s
+/-- `^#(include|$)`: a word that starts like an include directive, or a lone `#` (which the next list item could complete
+    to `# include`), is written in quotes -/
+def startsInclude (s : Str) : Bool := "#include".toList.isPrefixOf s || s == ['#']
 
 /-- `Formatter.format_string` with the Native / Foam overrides -/
 def formatString (fl : Flavor) (s : Str) : Str :=
